@@ -57,6 +57,9 @@ func TestBoundedC19SelectPurge(t *testing.T) {
 					for flags := 0; flags < 16; flags++ {
 						for _, keep := range []int{0, 2, 3} {
 							for _, useFirst := range []bool{false, true} {
+								if fails >= 200 {
+									continue // enough evidence
+								}
 								cases++
 								caseNo++
 								desc := fmt.Sprintf("versions=%v available-pattern=%d current=%d blacklisted=%d dev=%v pre=%v online=%v auto-download-index=%v keep=%d activate-before-newer=%v",
